@@ -29,3 +29,8 @@ Fixpoint false_ix_from (i : N) (l : list bool) : list N :=
   | b :: l' => if b then false_ix_from (i + 1) l' else i :: false_ix_from (i + 1) l'
   end.
 Definition false_ix (l : list bool) : list N := false_ix_from 0 l.
+
+(* model self-check used on a sample of the generated contexts: the canonical outcome
+   computed by [canon] is itself in the allowed set (the set is not empty) *)
+Definition scase_canon (P : params) (C : sctx) (o : outcome) : bool :=
+  allowed P C o && allowed P C (canon P C [700001; 700002; 700003; 700004; 700005; 700006]).
